@@ -3,7 +3,7 @@
    Executable definitions only.  Transcribed from
      /repo/pkg/gate/config/config.go            Config.Validate            (top level: health bind, prefixes)
      /repo/pkg/edition/java/config/config.go    Config.Validate, validateBackendFloodgate, validateVia
-     /repo/pkg/edition/java/lite/config/config.go  Config.Validate (Lite routes), containsParameters
+     /repo/pkg/edition/java/lite/config/config.go  Config.Validate (Lite routes) and its contains-params helper
      /repo/pkg/edition/bedrock/config/validate.go  the backendFloodgate part (reached from the top level when
                                                     bedrock.enabled; all other bedrock fields stay at their defaults)
      /repo/pkg/util/validation/util.go          ValidHostPort (= net.SplitHostPort), ValidServerName
@@ -141,7 +141,7 @@ Definition lite_parse_fails (s : str) : bool :=
   | ShpOther => true
   end.
 
-(* containsParameters: regexp `\$\d+` matches somewhere *)
+(* the contains-params helper of lite config: regexp `\$\d+` matches somewhere *)
 Fixpoint contains_params (s : str) : bool :=
   match s with
   | c :: ((d :: _) as r) => ((c =? 36) && is_digit d) || contains_params r
